@@ -583,7 +583,7 @@ func main() {
 			"distinct = distinct (history, step, target); non-trivial = a step after the first")
 		var plans []plan
 		plans = scriptedPlans(c.Thor)
-		nrandom := c.Scale(8, 150)
+		nrandom := c.Scale(5, 150)
 		steps := c.Scale(5, 8)
 		for i := 0; i < nrandom; i++ {
 			r := c.Rng.Fork()
